@@ -60,7 +60,7 @@ fn replay_case(case: &Value) -> Option<(bool, String)> {
         "c18" => props::c18::replay(case),
         "c19" => props::c19::replay(case),
         "c17" | "c17hsl" => props::c17::replay(case),
-        "c16yuv" | "c16curve" | "c16prim" | "c16xyb" | "c16hsl" => props::c16::replay(case),
+        "c16yuv" | "c16curve" | "c16prim" | "c16xyb" | "c16hsl" | "c16mixed" => props::c16::replay(case),
         "c14" | "c14labels" => props::c14::replay(case),
         "c15res" | "c15rgb" | "c15content" | "c15contentrgb" => props::c15::replay(case),
         "c12" | "c12float" => props::c12::replay(case),
